@@ -21,7 +21,8 @@
 // cascaded deletes and cascaded key updates from p to c, statements that fail
 // (duplicate key, foreign key block), an insert whose trigger throws; commit /
 // abort of the open transaction; DisableTrigger / EnableTrigger for p and c
-// nested to depth 2. Successor = replay the event path on a fresh database +
+// nested to depth 2; statements run inside the builtin DoWithoutTriggers(tables)
+// { ... } by the interpreter (succeeding and failing). Successor = replay the event path on a fresh database +
 // one event; states are deduplicated on the model state (committed tables, open
 // transaction's tables, disable counts).
 //
@@ -52,7 +53,7 @@ import (
 	"github.com/apmckinlay/gsuneido/core"
 	"github.com/apmckinlay/gsuneido/db19"
 	"github.com/apmckinlay/gsuneido/db19/stor"
-	_ "github.com/apmckinlay/gsuneido/dbms" // injects db19.MakeSuTran / qry.MakeSuTran
+	"github.com/apmckinlay/gsuneido/dbms" // also injects db19.MakeSuTran / qry.MakeSuTran
 	qry "github.com/apmckinlay/gsuneido/dbms/query"
 
 	"verif/lib"
@@ -384,6 +385,7 @@ func newExec(root int) (*execCtx, *model) {
 	// Database.CommitMerge (checker commit + layering + merge, synchronously)
 	db.CheckerSync()
 	x := &execCtx{db: db, th: &core.Thread{}}
+	x.th.SetDbms(dbms.NewDbmsLocal(db)) // for the builtin DoWithoutTriggers
 	ctxs.Store(x.th, x)
 	qry.DoAdmin(db, "create p (pk, pv) key(pk)", nil)
 	qry.DoAdmin(db, "create c (ck, pk, cv) key(ck) index(pk) in p cascade", nil)
@@ -531,6 +533,30 @@ func defEvents() {
 		}
 	}, func(m *model) bool { return m.delC(1) })
 	action("delete all c", "delete c", func(m *model) bool { return m.delAllC() })
+	// the builtin DoWithoutTriggers(tables, block), run by the interpreter with
+	// the open transaction as argument: disables, runs the block, re-enables
+	// (also when the block throws)
+	without := func(name, tables, act string, dis []string, mod func(m *model) bool) {
+		fn := compile.Constant("function (t) { DoWithoutTriggers(#(" + tables + ")) { t.QueryDo(\"" + act + "\") } }")
+		events = append(events, event{name: name + " [DoWithoutTriggers(#(" + tables + ")) { t.QueryDo(\"" + act + "\") }]", kind: 'd',
+			do: func(x *execCtx) { x.th.Call(fn, db19.MakeSuTran(x.tran())) },
+			mod: func(m *model) bool {
+				for _, d := range dis {
+					m.dis[d]++
+				}
+				fails := mod(m)
+				for _, d := range dis {
+					m.dis[d]--
+				}
+				return fails
+			}})
+	}
+	without("insert p2 without its trigger", "p", "insert { pk: 2, pv: 'b' } into p", []string{"p"},
+		func(m *model) bool { return m.insP(2, "b") })
+	without("delete p1 (cascades) without triggers", "p, c", "delete p where pk is 1", []string{"p", "c"},
+		func(m *model) bool { return m.delP(1) })
+	without("insert c3 -> p2 without triggers (may fail)", "c, p", "insert { ck: 3, pk: 2, cv: 'x' } into c", []string{"p", "c"},
+		func(m *model) bool { return m.insC(3, 2, "x") })
 	events = append(events,
 		event{name: "commit", kind: 'C'},
 		event{name: "abort", kind: 'A'},
@@ -618,6 +644,7 @@ func step(x *execCtx, m *model, ev *event) string {
 func resetThread(x *execCtx) *core.Thread {
 	ctxs.Delete(x.th)
 	th := &core.Thread{}
+	th.SetDbms(dbms.NewDbmsLocal(x.db))
 	ctxs.Store(th, x)
 	return th
 }
@@ -741,7 +768,7 @@ var rootNames = []string{"empty tables", "p1 with children c1, c2"}
 func run(c *lib.Ctx) {
 	setup()
 	debug.SetGCPercent(400)
-	depth := lib.Pick(c, 4, 5)
+	depth := lib.Pick(c, 4, 6)
 	c.Set("events", len(events))
 	c.Set("max_depth", depth)
 	names := []string{}
